@@ -556,7 +556,9 @@ class C12(w1.EngineCheck):
             "bytes, reserved kwarg names, payload at limit-2..limit+60 for limits 1000/4000/65535) and dependency situation "
             "(met, missing required, unsatisfied group, dependency failed/skipped, rule disabled, rule skipping, rule raising) x "
             "evaluator (SingleEvaluator, InsightsEvaluator, JsonFormat with every missing/show_rules/render_content setting; rules "
-            "carry content templates that render, fail to render, or are dictionaries) x 20% histories (evaluate, re-tag "
+            "carry content templates that render, fail to render, or are dictionaries; metadata keys named like response sections; "
+            "system facts (machine id, release) in InsightsEvaluator's broker readable / empty / unreadable / not text) x 20% "
+            "histories (evaluate, re-tag "
             "through apply_configs, evaluate again) x mode (serial, "
             "incremental, incremental on SimPool with seeded walk/PCT schedule); oracle = each rule in exactly the predicted "
             "bucket, entry fields, totals; non-trivial / distinct as in W1")
